@@ -323,6 +323,14 @@ class Scenario:
                 tbl.setdefault(blk, {})
                 tbl[blk][disp] = dirs
         self.functions = gtirb_functions.Function.build_functions(m) if self.func_uuids else []
+        self.orig_block_pos = {}
+        for sect in self.sections:
+            pos = 0
+            for bi in self.section_intervals(sect):
+                for blk in bi.blocks:
+                    bid = next(k for k, v in self.blocks.items() if v is blk)
+                    self.orig_block_pos[bid] = pos + blk.offset
+                pos = pos + bi.size
 
     # ---- modifications ---------------------------------------------------------
     def boundary(self, bid, j):
@@ -375,14 +383,16 @@ class Scenario:
                 raise InjectedFault("injected into patch callback %d" % self.invocations)
             return _text
 
-        return Patch.from_function(fn)
+        p = Patch.from_function(fn)
+        p._symx_text = text
+        return p
 
-    def register(self):
-        """Create the RewritingContext and register every modification."""
+    def register(self, only=None, located=None):
+        """Create the RewritingContext and register every modification (or only modification `only`)."""
         import gtirb_rewriting.rewriting as RW
         from gtirb_rewriting import RewritingContext
 
-        self.contexts = []
+        self.contexts = getattr(self, "contexts", [])
         self.invocations = 0
         self.fault_at = getattr(self, "fault_at", None)
         self.fault_snapshot = None
@@ -390,16 +400,20 @@ class Scenario:
         self.ctx = ctx = RewritingContext(self.module, self.functions, expensive_assertions=not self.sym)
         self.data_patch = {}
         for mi, md in enumerate(self.spec.get("mods", [])):
-            blk = self.blocks[md["blk"]]
-            at = self.boundary(md["blk"], md["at"])
+            if md is None or (only is not None and mi != only):
+                continue
+            if located is not None:
+                blk, at, ln = located
+            else:
+                blk = self.blocks[md["blk"]]
+                at = self.boundary(md["blk"], md["at"])
+                ln = (self.boundary(md["blk"], md["to"]) - at) if "to" in md else 0
             if md["op"] == "insert":
                 p = self._patch_arg(mi, md)
                 ctx.insert_at(blk, at, p)
             elif md["op"] == "delete":
-                ln = self.boundary(md["blk"], md["to"]) - at
                 ctx.delete_at(blk, at, ln, retarget_to_proxy=bool(md.get("proxy")))
             elif md["op"] == "replace":
-                ln = self.boundary(md["blk"], md["to"]) - at
                 p = self._patch_arg(mi, md)
                 ctx.replace_at(blk, at, ln, p)
             else:
